@@ -439,11 +439,29 @@ fn check_tx_validity<C: ContentAddrStore>(
     Ok(())
 }
 
+/// Verifies a proof without trusting its shape. `melpow::Proof::verify` indexes the proof's node map
+/// directly and computes `64 - difficulty`, so a proof that lacks a node it wants (an empty proof, say),
+/// or a difficulty outside 1..=64, makes it panic instead of returning false.
+fn verify_melpow(
+    proof: &Proof,
+    puzzle: &HashVal,
+    difficulty: u32,
+    hasher: impl melpow::HashFunction,
+) -> bool {
+    if !(1..=64).contains(&difficulty) {
+        return false;
+    }
+    std::panic::catch_unwind(std::panic::AssertUnwindSafe(|| {
+        proof.verify(puzzle, difficulty as _, hasher)
+    }))
+    .unwrap_or(false)
+}
+
 fn proof_is_tip910(proof: Proof, puzzle: &HashVal, difficulty: u32) -> Result<bool, StateError> {
     // try verifying the proof under the old and the new system
-    if proof.verify(puzzle, difficulty as _, LegacyMelPowHash) {
+    if verify_melpow(&proof, puzzle, difficulty, LegacyMelPowHash) {
         Ok(false)
-    } else if proof.verify(puzzle, difficulty as _, Tip910MelPowHash) {
+    } else if verify_melpow(&proof, puzzle, difficulty, Tip910MelPowHash) {
         Ok(true)
     } else {
         Err(StateError::InvalidMelPoW)
